@@ -62,13 +62,18 @@ class DocProp(Prop):
 
     def doc_cases(self, tier, seed, shard, nshards):
         r = shard_rng(seed, self.id, shard)
-        for _ in range(self.ndocs[tier]):
-            yield r, {"kind": "doc", "seed": r.getrandbits(40), "profile": r.choice(self.profiles)}
+        for i in range(self.ndocs[tier]):
+            c = {"kind": "doc", "seed": r.getrandbits(40), "profile": r.choice(self.profiles)}
+            if i % 10 == 7:
+                # documents of a size small random cases never reach: lists of 10+ / 100+ items, long tables and code
+                # blocks, dozens of blocks (vf/gen_doc.py, scale)
+                c["scale"] = 8 if i % 20 == 7 else 3
+            yield r, c
 
     def load(self, case) -> tuple[str, set]:
         if case["kind"] == "text":
             return case["text"], set(case.get("feats", []))
-        d = gen_doc(case["seed"], case["profile"], layout_seed=case.get("layout_seed"))
+        d = gen_doc(case["seed"], case["profile"], layout_seed=case.get("layout_seed"), scale=case.get("scale", 1))
         return d.text, d.feats
 
     def feats_hist(self, col: Collector, feats) -> None:
